@@ -97,5 +97,14 @@ CHECKS["C08"] = dict(
          "server decoded for each request with the reply each call returned (own id and request number), the error class of unanswered calls, and the id sequence.",
     note="Trusted: TLC, the server model (strict decoder, read boundaries at server-message ends). Calls answered at once have a 4 s deadline so NoLoss is not a timing race; candidates are re-executed alone. "
          "One genuine defect found and repaired (reply lost when a late reply shares a read with the echo of the next request).")
+CHECKS["C03"] = dict(
+    category="model_checking", design_ref="DESIGN.md §5 C03, §11",
+    technique="TLA+/TLC trace validation: NcReqScn.tla generates NETCONF sessions, the harness records every request as the server model received it, and NcRequestTrace.tla (reusing NcFraming!Strict) "
+              "validates each recorded request: framing with exact byte counts, message-id sequence, round trip to Input/FramedInput, well-formedness, expected element tree, option effects",
+    text="Sessions (1.0/1.1 x forced self-closing x header x 2-6 operations out of 17 kinds with 11 argument kinds incl. multi-byte, 5 kB, attributes, namespaces, empty elements, comment/CDATA/PI before a "
+         "closing tag) are executed against the server model, whose strict stream decoder also reports separator errors between consecutive messages. Each request becomes one trace event carrying the byte "
+         "classes of the wire message and the projections computed by the harness (encoding/xml token tree of the wire vs of the document the RFC prescribes for that call); TLC accepts the trace only if "
+         "every conjunct of the request contract holds; a rejected session is reported with the failing conjunct and the remaining sessions are still validated.",
+    note="Trusted: TLC, encoding/xml as the XML projection, the server model's strict decoder. 150 (quick) / 1200 (thorough) sessions.")
 PENDING_REASON = "check not built yet in this session (work in progress; see DESIGN.md §5 for the planned TLA+ specification and binding)"
 NOT_APPLICABLE = {}
